@@ -181,19 +181,6 @@ theorem processPacket_malformed (st : LoopSt) (m : Bytes) (h : malformed m = tru
 
 /-! ### from the SPEC's selection of datagrams to numbered parts -/
 
-theorem selects_perm : ∀ (got pool : List Bytes), selects got pool = true →
-    ∃ more, more ≠ [] ∧ (got ++ more).Perm pool := by
-  intro got
-  induction got with
-  | nil =>
-    intro pool h
-    exact ⟨pool, by simpa [selects] using h, by simp⟩
-  | cons d r ih =>
-    intro pool h
-    simp only [selects, Bool.and_eq_true, List.contains_iff_mem] at h
-    obtain ⟨more, hne, hp⟩ := ih (pool.erase d) h.2
-    exact ⟨more, hne, (List.Perm.cons d hp).trans (List.perm_cons_erase h.1).symm⟩
-
 /-- an incomplete selection of the reply's datagrams is the image of a prefix of an arrangement of the parts -/
 theorem selects_parts {y : Style} {st : State} (got : List Bytes) (h : selects got (script y st) = true) :
     ∃ gotP moreP : List NPart, moreP ≠ [] ∧ (gotP ++ moreP).Perm (partsOf y st)
